@@ -28,3 +28,20 @@ package hdkeychain
 //@   ensures err == nil && result.isPrivate ==> len(result.key) == 32 && 0 < beval(result.key) && beval(result.key) < curveN()
 //@   ensures err == nil && !result.isPrivate ==> len(result.key) == 33
 //@   ensures err != nil ==> result == nil
+
+// representation invariant of an extended key (BIP-32 field sizes)
+//@ define wf(k) = (k != nil && (k.isPrivate ==> len(k.key) == 32) && (!k.isPrivate ==> len(k.key) == 33) && len(k.chainCode) == 32 && len(k.parentFP) == 4 && len(k.version) == 4)
+
+// H2: child derivation (error cases, representation invariant, bookkeeping fields)
+//@ func (*ExtendedKey).Child
+//@   props C14 C04 C19
+//@   requires wf(k)
+//@   modifies k, gmap("bigval"), gmap("hdata")
+//@   ensures old(k.depth) == 255 ==> err == ErrDeriveBeyondMaxDepth
+//@   ensures old(k.depth) != 255 && !old(k.isPrivate) && i >= HardenedKeyStart ==> err == ErrDeriveHardFromPublic
+//@   ensures err != nil ==> result == nil
+//@   ensures err == nil ==> result != nil && result.isPrivate == old(k.isPrivate) && mathint(result.depth) == mathint(old(k.depth)) + 1 && result.childNum == i
+//@   ensures err == nil ==> len(result.chainCode) == 32 && len(result.parentFP) == 4 && len(result.version) == 4
+//@   ensures err == nil && !result.isPrivate ==> len(result.key) == 33
+//@   ensures err == nil && result.isPrivate ==> len(result.key) == 32
+//@   ensures err == nil && result.isPrivate ==> 0 <= beval(result.key) && beval(result.key) < curveN()
